@@ -8,7 +8,7 @@ use crate::zalsa_local::verif::{empty_derived, revs};
 use crate::zalsa_local::{OriginAndExtra, QueryEdge};
 use crate::{Durability, Revision};
 
-//@off(cbmc-runs-out-of-memory) id=K-DIFF-1 kind=B bound=2-stale-structs props=C06,C07 timeout=900 fn=MemoHeader::diff_outputs,report_stale_output,DatabaseKeyIndex::remove_stale_output
+//@ob id=K-DIFF-1 kind=B bound=2-stale-structs props=C06,C07 timeout=900 fn=MemoHeader::diff_outputs,report_stale_output,DatabaseKeyIndex::remove_stale_output
 //@ pre: old memo with no output edges (derived or derived-untracked, symbolic); the new execution reports 2 stale tracked structs (any ids; the count is a harness constant: a vector of symbolic length exhausts CBMC's memory)
 //@ post: every stale struct is handed to remove_stale_output exactly once, in order, with the executing query as executor, addressed to its own ingredient; nothing else is removed
 #[cfg_attr(kani, kani::proof)]
@@ -76,7 +76,7 @@ fn diff_one_output(rewritten: bool) {
     std::mem::forget(z);
 }
 
-//@off(cbmc-runs-out-of-memory) id=K-DIFF-2a kind=B bound=1-old-output props=C06,C10 timeout=900 fn=MemoHeader::diff_outputs,QueryOriginRef::outputs
+//@ob id=K-DIFF-2a kind=B bound=1-old-output props=C06,C10 timeout=900 fn=MemoHeader::diff_outputs,QueryOriginRef::outputs
 //@ pre: the previous execution wrote one output (specified value / created entity) `o`; the new execution - fully tracked or with an untracked read - writes `o` again
 //@ post: nothing is discarded: an output that is written again is not stale, whatever the origin kind of the new execution
 #[cfg_attr(kani, kani::proof)]
@@ -86,7 +86,7 @@ fn k_diff_2a_rewritten_output_is_kept() {
     diff_one_output(true)
 }
 
-//@off(cbmc-runs-out-of-memory) id=K-DIFF-2b kind=B bound=1-old-output props=C06,C10 timeout=900 fn=MemoHeader::diff_outputs,report_stale_output
+//@ob id=K-DIFF-2b kind=B bound=1-old-output props=C06,C10 timeout=900 fn=MemoHeader::diff_outputs,report_stale_output
 //@ pre: as K-DIFF-2a, but the new execution does not write `o` any more
 //@ post: `o` is handed to remove_stale_output exactly once, with the executing query as executor (a value the creator no longer specifies / an entity it no longer creates is discarded)
 #[cfg_attr(kani, kani::proof)]
